@@ -25,6 +25,7 @@ import (
 
 	"perun.network/go-perun/channel"
 	"perun.network/go-perun/channel/persistence"
+	"perun.network/go-perun/simhook"
 	"perun.network/go-perun/wire"
 )
 
@@ -44,6 +45,7 @@ func (c *Client) handleSyncMsg(peer map[wallet.BackendID]wire.Address, msg *Chan
 
 	ctx, cancel := context.WithTimeout(c.Ctx(), syncReplyTimeout)
 	defer cancel()
+	simhook.Yield("client.handleSyncMsg.beforeLock")
 	// Lock machine while replying to sync request.
 	if !ch.machMtx.TryLockCtx(ctx) {
 		log.Errorf("Could not lock machine mutex in time: %v", ctx.Err())
